@@ -947,18 +947,17 @@ func AdoptSession(p Persistence, c *Config) (client *Client, warn []error, fatal
 			}
 		}
 
-		var last uint
-		if len(publishKeys) != 0 {
-			last = publishKeys[len(publishKeys)-1] & publishIDMask
-		} else {
-			last = releaseKeys[len(releaseKeys)-1] & publishIDMask
-		}
-		if last < txs.Received {
-			// range overflows address space
-			last += publishIDMask + 1
-		}
 		seq := <-client.exactlyOnce.seqSem
-		seq.acceptN = last + 1
+		if len(publishKeys) == 0 {
+			seq.acceptN = txs.Received
+		} else {
+			last := publishKeys[len(publishKeys)-1] & publishIDMask
+			if last < txs.Received {
+				// range overflows address space
+				last += publishIDMask + 1
+			}
+			seq.acceptN = last + 1
+		}
 		// BUG(pascaldekloe):
 		//  AdoptSession assumes that all publish-exactly-once packets
 		//  were submitted before already. Persisting the actual state
